@@ -746,6 +746,9 @@ def dct_basis(n, k):
 def spm_case(draw):
     n_runs = draw(st.integers(1, 4))
     runs = draw(st.lists(st.integers(3, 12), min_size=n_runs, max_size=n_runs))
+    if n_runs >= 2 and draw(st.integers(0, 2)) == 0:
+        # sessions of equal length (the usual design) - their filter bases may still differ
+        runs = [runs[0]] * n_runs
     basis = draw(st.sampled_from(['dct', 'qr']))
     ks = [draw(st.integers(1 if draw(st.integers(0, 9)) else 0, min(4, n - 1))) for n in runs]
     raw = None
@@ -868,7 +871,7 @@ def classify_spm(case):
               'equal-runs' if len(set(runs)) == 1 else 'unequal-runs',
               'some-empty-basis' if 0 in ks else 'all-bases>0',
               'residuals' if case['residuals'] else 'filter-only']
-    return labels, len(runs) >= 2 and len(set(runs)) > 1
+    return labels, len(runs) >= 2 and (len(set(runs)) > 1 or len(set(ks)) > 1 or case['basis'] == 'qr')
 
 
 SUBCHECKS = [
